@@ -211,7 +211,8 @@ class Fitness:
 
         try:
             samples_summary = self.paths.load_samples_summary()
-        except FileNotFoundError:
+        except (FileNotFoundError, ValueError):
+            # ValueError: a samples summary truncated by an interrupted run (json.JSONDecodeError)
             return
 
         try:
@@ -222,7 +223,10 @@ class Fitness:
 
         parameters = max_log_likelihood_sample.parameter_lists_for_model(model=self.model)
 
-        log_likelihood_new = fitness(parameters=parameters)
+        # compare like with like: `fitness(parameters)` is the figure of merit of the search
+        # (a log posterior, or a chi-squared for BFGS / LBFGS), not the log likelihood
+        instance = self.model.instance_from_vector(vector=parameters)
+        log_likelihood_new = fitness.log_likelihood_function(instance=instance)
 
         if not np.isclose(log_likelihood_old, log_likelihood_new):
             raise exc.SearchException(
